@@ -23,9 +23,11 @@ def dyadic(rng, zero_num=1, zero_den=6):
     return (rng.range(1, 40 if s == 0 else 255), 1 << s)
 
 
-def gen_graph(rng, family, nmax):
-    """returns dict(n, edges=[(u,v,num,den)], weighted, family)"""
+def gen_graph(rng, family, nmax, exact=False):
+    """returns dict(n, edges=[(u,v,num,den)], weighted, family); exact: n = nmax"""
     n = rng.range(2, max(2, nmax))
+    if exact:
+        n = nmax
     es = []
     w = lambda: dyadic(rng)
     weighted = 1
@@ -236,6 +238,28 @@ class Runner:
         self.cpp = C.build_harness('c17_sp', ['libcola', 'libvpsc'], 'plain')
         self.model = C.ocaml_build('c17', 'C17.v', 'c17_driver.ml', 'c17_model.ml')
         self.args = [str(litmax), str(modelmax), str(djmax)]
+
+    def run_many(self, records, timeout=3000, workers=8):
+        """records: [(id, text, obj)]; the C++ side runs once, the model side in parallel chunks balanced by n^3"""
+        import concurrent.futures
+        text = ''.join(r[1] for r in records)
+        rc1, o1, e1, t1 = C.sh([self.cpp], input=text, timeout=timeout)
+        bins = [[0, []] for _ in range(workers)]
+        for rid, rtxt, obj in sorted(records, key=lambda r: -(r[2].get('n', 10) ** 3)):
+            b = min(bins, key=lambda b: b[0])
+            b[0] += obj.get('n', 10) ** 3 + 1000
+            b[1].append(rtxt)
+        bins = [b for b in bins if b[1]]
+        import time
+        t0 = time.time()
+        with concurrent.futures.ThreadPoolExecutor(max_workers=len(bins)) as ex:
+            outs = list(ex.map(lambda b: C.sh([self.model] + self.args, input=''.join(b[1]), timeout=timeout), bins))
+        rc2, merged, e2 = 0, {}, ''
+        for rc, o, e, dt in outs:
+            if rc != 0:
+                rc2, e2 = rc, e
+            merged.update(parse_output(o))
+        return (rc1, parse_output(o1), e1, t1), (rc2, merged, e2, time.time() - t0)
 
     def run(self, text, timeout=1500, args=None):
         rc1, o1, e1, t1 = C.sh([self.cpp], input=text, timeout=timeout)
@@ -477,12 +501,17 @@ def shrink_graph(runner, g, kind, still_fails):
     return g
 
 
-def sp_failure(runner, g):
+def sp_failure(runner, g, alg=None):
+    if g['n'] < 1:
+        return None
     (rc1, c, e1, _), (rc2, m, e2, _) = runner.run(graph_record('S', 'x', g), timeout=120, args=['0', '0', '0'])
     if rc1 != 0 or rc2 != 0 or 'x' not in c or 'x' not in m:
         return None
     r = check_sp(g, c['x'], m['x'])
-    return r['oracle'][0] if r['oracle'] else None
+    for o in r['oracle']:
+        if alg is None or o.get('algorithm') == alg:
+            return o
+    return None
 
 
 def layout_failure(runner, g):
@@ -536,14 +565,14 @@ def run(tier):
     nmax = 60 if quick else 300
     litmax = 20 if quick else 32
     modelmax = 60 if quick else 300
-    djmax = 60 if quick else 110
+    djmax = 60 if quick else 300
     runner = Runner(litmax, modelmax, djmax)
     rng = C.SplitMix64(C.get_seed())
 
     # ---- cases
     sgraphs = load_corpus()
     n_corpus = len(sgraphs)
-    per_family = 4 if quick else 12
+    per_family = 8 if quick else 14
     for fam in S_FAMILIES:
         r = rng.fork()
         for k in range(per_family):
@@ -551,44 +580,46 @@ def run(tier):
             if not quick and k == 0:
                 cap = 110
             sgraphs.append(gen_graph(r, fam, min(cap, nmax)))
-    # large ones
+    # large ones (exact sizes)
     r = rng.fork()
-    big = [('sparse', nmax), ('multi', nmax)] if quick else [('sparse', 300), ('multi', 200), ('disconnected', 300), ('grid', 290)]
+    big = [('sparse', nmax), ('multi', nmax)] if quick else [('sparse', 300), ('multi', 200), ('disconnected', 260), ('grid', 225), ('zero', 150)]
     for fam, sz in big:
-        g = gen_graph(r, fam, sz)
-        if fam != 'grid' and g['n'] < sz:
-            # force the size: regenerate edges on sz nodes
-            g2 = gen_graph(r, fam, sz)
-            g = g2 if g2['n'] > g['n'] else g
-        sgraphs.append(g)
-    # one graph of exactly nmax nodes
-    g = gen_graph(rng.fork(), 'sparse', nmax)
-    g['n'] = nmax
-    g['edges'] += [[nmax - 1, rng.below(nmax), 3, 2], [nmax - 2, nmax - 1, 5, 1], [nmax - 2, nmax - 1, 2, 1]]
-    sgraphs.append(g)
-    lgraphs = [gen_layout(rng.fork(), 40 if quick else 90) for _ in range(14 if quick else 40)]
+        sgraphs.append(gen_graph(r, fam, sz, exact=True))
+    lgraphs = [gen_layout(rng.fork(), 40 if quick else 90) for _ in range(24 if quick else 50)]
     hcases = []
     r = rng.fork()
-    for k in range(6 if quick else 24):
+    for k in range(10 if quick else 30):
         hcases.append((k % 2, gen_heap(r, 250 if quick else 800)))
 
-    text = []
+    records = []
     for k, g in enumerate(sgraphs):
-        text.append(graph_record('S', 's%d' % k, g))
+        records.append(('s%d' % k, graph_record('S', 's%d' % k, g), g))
     for k, g in enumerate(lgraphs):
-        text.append(graph_record('L', 'l%d' % k, g))
-        text.append(graph_record('S', 'l%dc' % k, dict(g, weighted=1), corrected_edges(g)))
+        records.append(('l%d' % k, graph_record('L', 'l%d' % k, g), g))
+        records.append(('l%dc' % k, graph_record('S', 'l%dc' % k, dict(g, weighted=1), corrected_edges(g)), g))
     for k, (mode, ops) in enumerate(hcases):
-        text.append('H h%d %d %d\n' % (k, mode, len(ops)) + '\n'.join(ops) + '\n')
-    text = ''.join(text)
-
-    (rc1, cpp, err1, t_cpp), (rc2, mod, err2, t_mod) = runner.run(text, timeout=3000)
-    if rc1 != 0:
-        res.violation({'what': 'harness c17_sp failed (crash / assertion in the implementation or bad input)', 'rc': rc1,
-                       'stderr': err1[-2000:], 'last_record': sorted(cpp.keys())[-1:] if cpp else None}, no_input=True)
-        return res.finish()
+        records.append(('h%d' % k, 'H h%d %d %d\n' % (k, mode, len(ops)) + '\n'.join(ops) + '\n', {'mode': mode, 'ops': ops}))
+    (rc1, cpp, err1, t_cpp), (rc2, mod, err2, t_mod) = runner.run_many(records, timeout=3000)
     if rc2 != 0:
         raise RuntimeError('model driver failed: ' + err2[-2000:])
+    if rc1 != 0:
+        # the implementation crashed / aborted / hung: isolate the record
+        culprit = None
+        for rid, rtxt, obj in records:
+            rc, o, e, dt = C.sh([runner.cpp], input=rtxt, timeout=300)
+            if rc != 0:
+                culprit = (rid, rtxt, obj, rc, e)
+                break
+        if culprit:
+            rid, rtxt, obj, rc, e = culprit
+            res.violation({'what': 'the implementation crashes / aborts / does not terminate on this input (exit code %s; 124 = timeout, '
+                                   '-11 = SIGSEGV, -6 = abort/assertion)' % rc, 'record_id': rid,
+                           'input': obj if len(rtxt) < 20000 else {'n': obj.get('n'), 'edges': len(obj.get('edges', []))},
+                           'stderr_tail': e[-1500:], 'replay': 'feed this record to build/bin/c17_sp-plain-*:\n' + rtxt[:4000]})
+        else:
+            res.violation({'what': 'harness c17_sp failed on the whole input but on no single record', 'rc': rc1,
+                           'stderr': err1[-2000:]}, no_input=True)
+        return res.finish()
 
     # ---- shortest paths
     oracle_fail, corr_fail, variants = [], [], {'fixed': 0, 'current': 0, 'both': 0, 'neither': 0}
@@ -668,8 +699,8 @@ def run(tier):
         if alg in reported:
             continue
         reported.add(alg)
-        small = shrink_graph(runner, g, 'S', lambda c: (sp_failure(runner, c) or {}).get('algorithm') == alg)
-        fail = sp_failure(runner, small) or o
+        small = shrink_graph(runner, g, 'S', lambda c: sp_failure(runner, c, alg) is not None)
+        fail = sp_failure(runner, small, alg) or o
         obj = {'what': fail.get('what'), 'algorithm': alg, 'graph': {'n': small['n'], 'weighted': small['weighted'],
                'edges_u_v_num_den': small['edges']}, 'entry': {k: fail.get(k) for k in ('i', 'j', 'got', 'expected')},
                'found_on': {'family': g['family'], 'n': g['n'], 'edges': len(g['edges'])},
@@ -757,3 +788,33 @@ def replay(path):
 def warm():
     C.build_harness('c17_sp', ['libcola', 'libvpsc'], 'plain')
     C.ocaml_build('c17', 'C17.v', 'c17_driver.ml', 'c17_model.ml')
+
+
+META = {
+    'property_id': PID,
+    'level_claimed': {
+        'category': 'proof',
+        'text': 'Coq theorems, for all finite multigraphs with weights >= 0 (self-loops, parallel edges, zero weights, disconnected) and all '
+                'operation sequences, over hand-written executable models that mirror the C++: fw_correct_fixed (floyd_warshall with the '
+                'repaired initialisation = the shortest-path metric `dist`, None exactly for unreachable pairs; diagonal 0; symmetric), '
+                'fw_correct (the snapshot initialisation, only under no_self_loops /\\ parallel_equal) with fw_refuted (witness of defect F-a), '
+                'dijkstra_sound / dijkstra_optimal (generic in vertex type, adjacency function, map and priority queue), johnsons_correct, '
+                'johnsons_total, johnsons_eq_fw*, path_lengths_scaled (D = idealLength x dist over lengths with non-positive entries replaced '
+                'by 1, G = 0/1/2), heap_min (+ multiset effect of insert / deleteMin / decreaseKey / merge), bf_correct (the oracle). '
+                'Tie: on every run the compiled floyd_warshall / johnsons / dijkstra / ConstrainedFDLayout::readLinearD,G / PairingHeap from '
+                "/repo's working tree are compared exactly with the extracted models (graphs up to 60 nodes quick / 300 thorough, dyadic "
+                'weights; heap structure after every operation) and with the extracted verified Bellman-Ford oracle; the check determines '
+                'which modelled floyd_warshall initialisation the compiled code follows and reports F-a as a violation if it is the '
+                'overwriting one.',
+        'design_ref': 'DESIGN.md 5.17, 6 F-a'},
+    'level_note': 'Trusted: Coq kernel; the hand-written models (Graph/*Model.v) as mirrors of shortest_paths.h / pairing_heap.h / '
+                  'colafd.cpp:227-273 - validated by the exact correspondence, not derived from the source (no cpp2v tie: the code is '
+                  'pointer/array based); exact-rational model of binary64 with None for numeric_limits<double>::max() (exact on the dyadic '
+                  'inputs; non-dyadic weights compared to 1e-9 relative); extraction (ExtrOcamlBasic), the OCaml driver, the C++ harness, the '
+                  'Python heap-multiset oracle. The row-organised Floyd-Warshall loops equal the literal element-wise loops '
+                  '(fw_loops_lit_eq, proved; both are also extracted and compared for n <= 20/32). Not proved: '
+                  'that Dijkstra as compiled drives the heap within the callers-obligations of heap_min (Node keys are mutated in place before '
+                  'decreaseKey); heap amortised complexity; G[i][i] (never written by computePathLengths, uninitialised) is excluded. '
+                  'Print Assumptions: closed under the global context for every theorem.',
+    'technique': 'Coq proof over hand-written models + exact model/implementation correspondence + extracted verified Bellman-Ford oracle',
+}
